@@ -70,6 +70,10 @@ func checkC18(c *Ctx) {
 	// otherwise both verify)
 	c.guard(p, "C18.pss", "signature representative not below the modulus refused", vp, GuardSpec{Assumes: []Assume{calleeAssume(latInt(1), -1, "(*math/big.Int).Cmp")}})
 	c.guard(p, "C18.pss", "signature representative equal to the modulus refused", vp, GuardSpec{Assumes: []Assume{calleeAssume(latInt(0), -1, "(*math/big.Int).Cmp")}})
+	// salt lengths: the client draws SaltLength bytes (0 for the PSSZERO variants) and the partially blind
+	// verifier insists on a salt as long as the hash (not "auto": any salt length would verify)
+	c.callArgRule(p, "C18.pss", "the salt drawn by Blind has the variant's salt length", p.Func(br, "Client", "Blind"), "io.ReadFull", "", map[int]string{1: `make\(param#0\.v\.PSSOptions\.SaltLength\)`})
+	c.callArgRule(p, "C18.pss", "the partially blind verifier requires a salt of the hash length", p.Func(br+"/partiallyblindrsa", "randomizedVerifier", "Verify"), cm+".VerifyMessageSignature", "", map[int]string{2: `call:invoke \(hash\.Hash\)\.Size\(recv=param#0\.hash\)`})
 	// the range check is made on the signature representative, i.e. before the public-key operation (the
 	// result of s^e mod N is below N whatever s was)
 	c.orderRule(p, "C18.pss", "the comparison with the modulus precedes the public-key operation", vp,
